@@ -328,6 +328,30 @@ func ruleC08NumericSiblings(c *Ctx) {
 			}
 		}
 	}
+	// ... and in the extractor: the kinds for which it can succeed
+	{
+		subj := c.subjectsDeep(ext, ext.Params[0])
+		kf := c.kindFlowWithTypeTests(ext, func(v ssa.Value) bool { return subj[v] }, nil)
+		var got KindSet
+		core.EachInstr(ext, func(i ssa.Instruction) {
+			ret, ok := i.(*ssa.Return)
+			if !ok || len(ret.Results) != 2 {
+				return
+			}
+			for _, src := range append(traceSources(ret.Results[1]), ret.Results[1]) {
+				if k, ok := src.(*ssa.Const); ok && k.Value != nil && k.Value.String() == "true" {
+					if ks := kf.At(ret); ks != AllKinds {
+						got |= ks
+					}
+				}
+			}
+		})
+		for k, set := range map[string]KindSet{"CanInt": intKinds, "CanUint": uintKinds, "CanFloat": floatKinds} {
+			if got&set == set {
+				re[k] = true
+			}
+		}
+	}
 	for _, k := range []string{"CanInt", "CanUint", "CanFloat", "json.Number"} {
 		c.R.Check(re[k], rule, "extractor:"+k, c.P.Pos(ext.Pos()), "the number extractor recognises "+k, "the number extractor does not recognise "+k+": such instances are not numbers for minimum/maximum/multipleOf, enum and const")
 		c.R.Check(rc[k], rule, "classifier:"+k, c.P.Pos(cls.Pos()), "the type classifier recognises "+k, "the type classifier does not recognise "+k+" although the number extractor does: an instance carried that way gets a different `type` verdict than the canonical decoding of the same JSON number")
@@ -408,6 +432,14 @@ func ruleExactExtraction(c *Ctx, rule string) {
 			guarded := false
 			for _, g := range guardsOf(call) {
 				if gc, ok := g.Cond.(*ssa.Call); ok && g.Pol && core.CalleeKey(&gc.Call) == "reflect.Value."+w[1] && subj[gc.Call.Args[0]] {
+					guarded = true
+				}
+			}
+			// the same guard written as a test of the kind (a range of kinds, a switch): the kinds that reach the setter
+			if !guarded && call.Parent() == ext {
+				set := map[string]KindSet{"CanInt": intKinds, "CanUint": uintKinds, "CanFloat": floatKinds}[w[1]]
+				kfx := c.kindFlowWithTypeTests(ext, func(v ssa.Value) bool { return subj[v] }, nil)
+				if ks := kfx.At(call); ks != 0 && ks.SubsetOf(set) {
 					guarded = true
 				}
 			}
